@@ -10,7 +10,8 @@ COQ_IMPORTS = ['Base.Str', 'Base.Value', 'IO.Dump']
 RULE = ('cases = tables (multi-byte text, empty resources, 1-3 resources) x format csv/json x dump_to_path/dump_to_zip x '
         'counters default / renamed / nested with dots (same and different parents) / disabled x add_filehash_to_path x '
         'pretty_descriptor; each configuration is dumped twice; non-trivial = always (every case checks sizes, digests '
-        'and row counts against the bytes on disk); distinct = distinct case digest')
+        'and row counts against the bytes on disk); distinct = distinct case digest'
+        '; round 4: counters also switched off one kind at a time; byte-identical resources under add_filehash_to_path, dumped afresh and again into the same directory')
 TRUSTED = ['Coq 8.16.1 kernel + vm_compute', 'harness/p09.py oracle (recomputes size, md5 and row count from the written bytes)',
            'md5 is a parameter H of the theorems']
 ASSUMES = ['resource paths distinct and different from datapackage.json']
@@ -55,6 +56,14 @@ def gen_cases(rng, tier):
         bad = rng.pick([0, 0, 0, 1, 2]) if fmt != 'excel' else 0
         cases.append({'kind': 'dump', 'pkg': rows_enc_pkg(pkg), 'format': fmt, 'zip': z, 'mode': mode if not bad else 'fresh', 'bad': bad,
                       'counters': rng.randrange(len(COUNTERS)), 'hashpath': rng.chance(0.3), 'pretty': rng.chance(0.5)})
+    # systematically: add_filehash_to_path with resources whose files are byte-identical (they share the hash directory),
+    # dumped afresh and again into the same directory
+    rows = [{'id': j, 't': 'x', 'n': None} for j in range(2)]
+    for fmt in ('csv', 'json'):
+        for mode in ('fresh', 'samedir'):
+            for ci in (0, 1):
+                cases.append({'kind': 'dump', 'pkg': rows_enc_pkg([rows, rows, rows[:1]]), 'format': fmt, 'zip': False, 'mode': mode, 'bad': 0,
+                              'counters': ci, 'hashpath': True, 'pretty': False})
     return cases
 
 
